@@ -179,7 +179,7 @@ func parseIptables(rs *Ruleset, text string) (*Rule, error) {
 			return p, unparsed("bad address "+s, text)
 		}
 		if p.Addr().Is6() != v6 {
-			return p, rejected("address "+s+" is of the wrong family for this table", text)
+			return p, rejected("wrong-family-address", "address "+s+" is of the wrong family for this table", text)
 		}
 		return p, nil
 	}
@@ -208,10 +208,10 @@ func parseIptables(rs *Ruleset, text string) (*Rule, error) {
 				return nil, unparsed("unknown match module "+mod, text)
 			}
 			if mod == "icmp" && v6 {
-				return nil, rejected("match icmp does not exist in ip6tables", text)
+				return nil, rejected("wrong-family-match", "match icmp does not exist in ip6tables", text)
 			}
 			if mod == "icmp6" && !v6 {
-				return nil, rejected("match icmp6 does not exist in iptables", text)
+				return nil, rejected("wrong-family-match", "match icmp6 does not exist in iptables", text)
 			}
 			modules[mod] = true
 			i += 2
@@ -228,10 +228,10 @@ func parseIptables(rs *Ruleset, text string) (*Rule, error) {
 			}
 			n, ok := lookupProto(toks[i+1])
 			if !ok {
-				return nil, rejected("unknown protocol "+toks[i+1], text)
+				return nil, rejected("unknown-protocol", "unknown protocol "+toks[i+1], text)
 			}
 			if haveProto {
-				return nil, rejected("multiple -p flags not allowed", text)
+				return nil, rejected("multiple-proto-flags", "multiple -p flags not allowed", text)
 			}
 			proto, protoNeg, haveProto = n, takeNeg(), true
 			pn, ng := uint8(n), protoNeg
@@ -332,7 +332,7 @@ func parseIptables(rs *Ruleset, text string) (*Rule, error) {
 				return nil, unparsed("bad port list "+toks[i+1], text)
 			}
 			if slots > 15 {
-				return nil, rejected("multiport: too many ports specified ("+strconv.Itoa(slots)+" slots, limit 15)", text)
+				return nil, rejected("multiport-too-many-ports", "multiport: too many ports specified ("+strconv.Itoa(slots)+" slots, limit 15)", text)
 			}
 			ng := takeNeg()
 			which := t
@@ -573,14 +573,14 @@ func parseIptables(rs *Ruleset, text string) (*Rule, error) {
 	// kernel check-entry rules
 	if len(needProtoFor) > 0 {
 		if !haveProto || protoNeg || !isMultiportProto(proto) {
-			return nil, rejected("match "+needProtoFor[0]+" needs a non-inverted -p tcp/udp/udplite/sctp/dccp", text)
+			return nil, rejected("match-needs-proto", "match "+needProtoFor[0]+" needs a non-inverted -p tcp/udp/udplite/sctp/dccp", text)
 		}
 	}
 	if needICMP == "icmp" && (!haveProto || protoNeg || proto != 1) {
-		return nil, rejected("match icmp needs -p icmp", text)
+		return nil, rejected("match-needs-proto", "match icmp needs -p icmp", text)
 	}
 	if needICMP == "icmp6" && (!haveProto || protoNeg || proto != 58) {
-		return nil, rejected("match icmp6 needs -p icmpv6", text)
+		return nil, rejected("match-needs-proto", "match icmp6 needs -p icmpv6", text)
 	}
 	if act != nil {
 		r.ops = append(r.ops, op{act: act})
